@@ -532,8 +532,8 @@ def _r6_serial(run, ev):
             if isinstance(n, ast.Yield) and isinstance(n.value, ast.Name) and n.value.id == param0:
                 self_yields.append(n)
         if not loops or not self_yields:
-            run.violated("C01.R6", f, None, "post-order generator must recurse into %s(%s) and then yield the tile itself "
-                         "(loops=%d, self-yields=%d)" % (children_fn, param0, len(loops), len(self_yields)), kind="postorder-shape")
+            run.undecided("C01.R6", f, None, "post-order generator is not of the recognised shape `for c in %s(%s): recurse; yield %s` "
+                          "(loops=%d, self-yields=%d)" % (children_fn, param0, param0, len(loops), len(self_yields)), kind="postorder-shape")
             continue
         loop = loops[0]
         lh = cfg.node_of_stmt(loop)
